@@ -43,7 +43,6 @@ class _View:
         self.exp = set(expanded)
         self.ins = {n["id"]: set(n["ins"]) for n in decl["nodes"]}
         self.outs = {n["id"]: set(n["outs"]) for n in decl["nodes"]}
-        self.leaves = [n["id"] for n in decl["nodes"] if n["kind"] != "graph"]
 
     def anc(self, n):
         out = []
@@ -106,8 +105,12 @@ def classify_missing(decl, view, missing_idx):
             # a leaf inside the expanded container that uses the same NAME for another value
             # (the name is rebound by a wrapper rename between the container and the leaf)
             cons, prods = {deps[j]["c"] for j in grp}, {deps[j]["p"] for j in grp}
-            shadow_c = via_open and any(view.inside(m, eff["via"]) and eff["val"] in view.ins[m] and m not in cons for m in view.leaves)
-            shadow_p = src_open and any(view.inside(m, eff["src"]) and eff["val"] in view.outs[m] and m not in prods for m in view.leaves)
+            shadow_c = via_open and any(
+                m != eff["via"] and view.inside(m, eff["via"]) and view.visible(m) and eff["val"] in view.ins[m]
+                and not any(view.inside(c, m) for c in cons) for m in view.par)
+            shadow_p = src_open and any(
+                m != eff["src"] and view.inside(m, eff["src"]) and eff["val"] in view.outs[m]
+                and not any(view.inside(q, m) for q in prods) for m in view.par)
             if eff["rin"] and via_open:
                 klass = K_RENAMED_IN
             elif eff["rout"] and src_open:
@@ -183,11 +186,34 @@ def findings_of(rec, out):
     return by
 
 
+MAX_NEW_PER_CLASS = 8      # replay files written per witness class that is not a known finding
+
+
+def _is_known(ctx, klass):
+    return any(k.get("status", "open") == "open" and k["class"] == klass for k in getattr(ctx, "_known", []))
+
+
+def _reproduced(pending):
+    """Re-execute witnesses from their descriptions (fresh objects, fresh recordings, one fresh
+    TLC run): [(class, witness, summary)] -> the same list with a flag 'still fails that way'."""
+    if not pending:
+        return []
+    recs = {}
+    for _klass, wit, _s in pending:
+        key = json.dumps(wit["desc"], sort_keys=True)
+        if key not in recs:
+            recs[key] = G.record(wit["desc"], len(recs) + 1)
+    out, _ = tlc_eval(list(recs.values()))
+    return [(klass, wit, summary, klass in findings_of(recs[json.dumps(wit["desc"], sort_keys=True)], out))
+            for klass, wit, summary in pending]
+
+
 def evaluate(ctx, pairs, report=True):
+    """TLC evaluates every recorded rendering; failing clauses are reported per (graph, class)."""
     recs = [r for r, _ in pairs]
     out, stats = tlc_eval(recs)
     ctx.add_tlc(stats)
-    nviol = 0
+    found, pending = [], []
     for rec, tag in pairs:
         ctx.count(len(rec["rends"]) + 1)
         ctx.traces(len(rec["rends"]) + 1)
@@ -208,9 +234,23 @@ def evaluate(ctx, pairs, report=True):
                    "where": sorted({f"{r['src']}:{r['key']}" for r, _ in hits if r})[:12]}
             summary = f"{tag}: {klass} in {len(hits)} rendering(s), first {wit['where'][:1]} {json.dumps(det, sort_keys=True)[:240]}"
             ctx.bump("findings:" + klass)
-            if report and ctx.violation(klass, wit, summary):
-                nviol += 1
-    return out, nviol
+            found.append((klass, wit, summary))
+            if not report:
+                continue
+            if _is_known(ctx, klass):
+                ctx.violation(klass, wit, summary)          # counted as a hit of the known finding
+            elif ctx.notes.get("reported:" + klass, 0) + sum(1 for k, _, _ in pending if k == klass) >= MAX_NEW_PER_CLASS:
+                ctx.bump("further_witnesses_not_written:" + klass)
+            else:
+                pending.append((klass, wit, summary))
+    # every new violation is re-executed from its witness before it is reported
+    for klass, wit, summary, again in _reproduced(pending):
+        if not again:
+            ctx.divergence("finding not reproduced on re-execution", {"class": klass, "tag": wit["tag"]})
+            continue
+        ctx.bump("reported:" + klass)
+        ctx.violation(klass, wit, summary)
+    return out, found
 
 
 # ---------------------------------------------------------------------------------------------
@@ -289,37 +329,56 @@ def selftest(ctx):
 # entry points
 # ---------------------------------------------------------------------------------------------
 
-def programs(tier, seed, ctx):
+RENAME_RATE = 0.3
+
+
+def programs(tier, seed):
     """(description, tag) of every program of the tier."""
     rng = random.Random(seed)
     thorough = tier == "thorough"
     for fam in G.FAMILIES:
         yield from fam()
-    n = 1400 if thorough else 150
+    n = 3600 if thorough else 150
     plain = G.RandomPrograms(rng, renames=0.0)
+    renaming = G.RandomPrograms(rng, renames=RENAME_RATE)
     for i in range(n):
         d = (i % 4) if i < 40 else rng.choice([0, 1, 1, 2, 2, 3, 3])
-        yield plain.program(d), f"random/seed{seed}/{i}/depth{d}"
+        gen = renaming if i % 3 == 2 else plain
+        yield gen.program(d), f"random/seed{seed}/{i}/depth{d}" + ("/renames" if gen is renaming else "")
+
+
+def _record_one(desc):
+    try:
+        return G.record(desc, 0)
+    except G.MermaidFormatError:
+        raise
+    except Exception as ex:  # noqa: BLE001 - Graph(...) rejected the description (such programs belong to C19)
+        from hypergraph import GraphConfigError
+        if isinstance(ex, (GraphConfigError, ValueError)):
+            return None
+        raise
 
 
 def record_all(ctx, progs):
-    pairs = []
-    seen = set()
+    todo, seen = [], set()
     for desc, tag in progs:
         key = json.dumps(desc, sort_keys=True)
-        if key in seen:
-            continue
-        seen.add(key)
-        try:
-            rec = G.record(desc, len(pairs) + 1)
-        except G.MermaidFormatError:
-            raise
-        except Exception as ex:  # noqa: BLE001 - Graph(...) rejected the description (kept for C19)
-            from hypergraph import GraphConfigError
-            if not isinstance(ex, (GraphConfigError, ValueError)):
-                raise
+        if key not in seen:
+            seen.add(key)
+            todo.append((desc, tag))
+    if len(todo) > 100:
+        import concurrent.futures as cf
+        import multiprocessing as mp
+        with cf.ProcessPoolExecutor(max_workers=min(tlc.NCPU, 12), mp_context=mp.get_context("fork")) as ex:
+            recs = list(ex.map(_record_one, [d for d, _ in todo], chunksize=16))
+    else:
+        recs = [_record_one(d) for d, _ in todo]
+    pairs = []
+    for rec, (_, tag) in zip(recs, todo):
+        if rec is None:
             ctx.bump("programs_rejected_by_Graph")
             continue
+        rec["id"] = len(pairs) + 1
         pairs.append((rec, tag))
     return pairs
 
@@ -327,32 +386,34 @@ def record_all(ctx, progs):
 def run(tier, seed):
     ctx = Ctx(PID, tier, seed, "translation_validation")
     selftest(ctx)
-    pairs = record_all(ctx, programs(tier, seed, ctx))
+    pairs = record_all(ctx, programs(tier, seed))
     for lvl in range(4):
         ctx.bump(f"graphs_nesting_{lvl}", sum(1 for r, _ in pairs if G.max_nesting(r["desc"]) == lvl))
-    chunk = 400
+    chunk = 480
     for i in range(0, len(pairs), chunk):
         evaluate(ctx, pairs[i:i + chunk])
     if pairs:
         rec = pairs[min(3, len(pairs) - 1)][0]
         ctx.sample({"desc": rec["desc"], "decl": rec["decl"], "states": rec["keys"]["expected"]})
     ctx.assumptions += [
-        "dependencies are derived from the generator's own description by name matching per level (producer leaf x consumer leaf through wrapper inputs/outputs), never from hypergraph",
+        "dependencies are derived from the generator's own description by name matching per level (producer leaf x consumer leaf through wrapper inputs/outputs and their renames), never from hypergraph",
         "a dependency is drawn when some edge (or a two-edge path through a DATA node) joins a visible ancestor-or-self of the producer to a visible ancestor-or-self of the consumer (for a gate whose target is a container: or a visible node inside the target), excluding containers that enclose both ends; edge kinds are not distinguished",
+        "an ordering dependency between two nodes of a level that a data or control dependency already links is not demanded separately (graph/core.py: ordering edges are only added if no data or control edge exists between the pair)",
         "edges from INPUT / INPUT_GROUP nodes, edges to END and DATA nodes without consumers are checked for self-consistency only; an input edge whose INPUT node is hidden is accepted (the front end filters it)",
         "the interactive front end draws an edge only when both endpoints are non-hidden nodes of the state",
     ]
     return ctx.finish(
-        rule="families: an outer value consumed by 1-3 nodes at every combination of depths of a 1-3 deep container chain; mutually exclusive producers flat / nested; gates targeting functions, containers, END; emit/wait_for pairs with the emitter 0-3 containers deep; shared and container-owned inputs; plus seeded random programs (<= 11 nodes, nesting 0..3, gates, mutex outputs, ordering pairs, shared inputs) -- each x ALL valid expansion states x both output modes (nodesByState/edgesByState), x depth 0..3 x both modes for render_graph's initial view and for Mermaid; distinct = program description, non-trivial = >= 2 nodes",
+        rule="families: an outer value consumed by 1-3 nodes at every combination of depths of a 1-3 deep container chain; mutually exclusive producers flat / nested; gates targeting functions, containers, END; emit/wait_for pairs with the emitter 0-3 containers deep; shared and container-owned inputs; renamed wrapper inputs/outputs; plus seeded random programs (<= 11 nodes, nesting 0..3, gates, mutex outputs, ordering pairs, shared inputs, one third with boundary renames) -- each x ALL valid expansion states x both output modes (nodesByState/edgesByState), x depth 0..3 x both modes for render_graph's initial view and for Mermaid; distinct = program description, non-trivial = >= 2 nodes",
         exhaustive=False)
 
 
 def replay(path):
     w = json.load(open(path))["witness"]
     ctx = Ctx(PID, "quick", 0, "translation_validation")
-    ctx.violation = lambda klass, wit, summary="": print(f"  reproduced class={klass} {summary[:300]}") or True
     rec = G.record(w["desc"], 1)
-    _, n = evaluate(ctx, [(rec, w.get("tag", "replay"))])
-    hit = ctx.notes.get("findings:" + w["class"], 0)
+    _, found = evaluate(ctx, [(rec, w.get("tag", "replay"))], report=False)
+    for klass, _wit, summary in found:
+        print(f"  class={klass} {summary[:300]}")
+    hit = any(klass == w["class"] for klass, _, _ in found)
     print(f"[C20] replay: {'still violated' if hit else 'not reproduced'} class={w['class']}")
     return 1 if hit else 0
